@@ -136,11 +136,14 @@ func codeFromState(state *state) (*Code, error) {
 		if err != nil {
 			return nil, err
 		}
+		// Only the root code is the unnamed "__main__"; a function may be
+		// called that
+		isNamed := c.Name != "" && !(c.ParentID == "" && c.Name == "__main__")
 		code := &Code{
 			id:           c.ID,
 			parent:       parent,
 			name:         c.Name,
-			isNamed:      c.Name != "" && c.Name != "__main__",
+			isNamed:      isNamed,
 			functionID:   c.FunctionID,
 			symbols:      codeSymbols,
 			instructions: CopyInstructions(c.Instructions),
